@@ -5,6 +5,8 @@ CONSTANTS
   HasEnc = TRUE
   MaxChunk = 3
   MaxPolls = 6
+  MaxEmpty = 1
+  EmptyIsData = TRUE
   Latch = TRUE
 INVARIANTS Shape NoPollAfterEnd
 PROPERTIES ContractHolds Terminates
